@@ -1,6 +1,9 @@
 (* Extraction of the reference evaluator (shared by C02, C03 and the properties that reuse it).
    ExtrOcamlBasic only; Z/positive/nat stay Coq datatypes. *)
 From Coq Require Import ZArith ExtrOcamlBasic.
-Require Import ZV.Model.RefSem ZV.Model.GenF0.
+Require Import ZV.Model.RefSem ZV.Model.GenF0 ZV.Model.GenF1.
+Definition f1_gen := GenF1.gen.
+Definition f1_ok := GenF1.f1.
+Definition f1_top := GenF1.top.
 Extraction "model.ml" Z.add Z.mul Z.opp Z.div_eucl Z.of_nat Z.to_nat Z.compare
-  eval_program_cfg eval_program prim_ident all_prims cc gen f0.
+  eval_program_cfg eval_program prim_ident all_prims cc GenF0.gen GenF0.f0 f1_gen f1_ok f1_top.
